@@ -1836,6 +1836,173 @@ Proof.
   - apply InvA_set_rel; [exact H|apply Perr; discriminate].
 Qed.
 
+(* --- acceptance of a size change: the verification, declaratively ------------------------------ *)
+
+(* the free bits behind x in the layout L: the gaps between its followers plus the trailing space *)
+Definition free_in (s : state) (p : nat -> Z) (L : lid) (x : nat) : Z :=
+  match followers (lay s L) x with
+  | Some fs => free_from p (sz s) (p x + sz s x) (lsz s L) fs
+  | None => 0
+  end.
+
+(* a change of the size of x by a fits: it is no growth, or every layout that holds x (its message,
+   or every group of its multiplexer that holds it) has at least a free bits behind x *)
+Definition change_fits (s : state) (p : nat -> Z) (x : nat) (a : Z) : Prop :=
+  a <= 0 \/ forall L, In x (lay s L) -> a <= free_in s p L x.
+
+Lemma free_from_ext : forall pos pos' len fs prev size, (forall t, In t fs -> pos' t = pos t) ->
+  free_from pos' len prev size fs = free_from pos len prev size fs.
+Proof.
+  induction fs as [|t r IH]; intros prev size H; cbn [free_from]; [reflexivity|].
+  rewrite (H t (or_introl eq_refl)). rewrite IH by (intros t' Ht'; apply H; right; exact Ht'). reflexivity.
+Qed.
+
+Lemma free_in_ext : forall s p p' L x, (forall t, In t (lay s L) -> p' t = p t) -> free_in s p' L x = free_in s p L x.
+Proof.
+  intros s p p' L x H. unfold free_in. destruct (followers (lay s L) x) as [fs|] eqn:Hf; [|reflexivity].
+  destruct (followers_In _ _ _ Hf) as [A B]. rewrite (H x A). apply free_from_ext. intros t Ht. apply H. apply B. exact Ht.
+Qed.
+
+Lemma change_fits_ext : forall s p p' x a,
+  (0 < a -> forall L t, In x (lay s L) -> In t (lay s L) -> p' t = p t) -> change_fits s p' x a <-> change_fits s p x a.
+Proof.
+  intros s p p' x a H. unfold change_fits. destruct (Z.le_gt_cases a 0) as [Hle|Hgt]; [split; intros _; left; exact Hle|].
+  assert (Hpos : 0 < a) by lia.
+  split; intros [C|C]; try lia; right; intros L HL; specialize (C L HL);
+    [rewrite <- (free_in_ext s p p' L x (fun t Ht => H Hpos L t HL Ht))|rewrite (free_in_ext s p p' L x (fun t Ht => H Hpos L t HL Ht))]; exact C.
+Qed.
+
+Lemma verify_groups_all : forall s u x a gs, 0 < a ->
+  (verify_groups s u x a gs = None <->
+   forall g, In g gs -> verify_grow (sz s) (rel s) (mux_gsize s u) (gget s u g) x a = None).
+Proof.
+  intros s u x a gs Hpos. induction gs as [|g r IH]; cbn [verify_groups]; [split; [intros _ g []|reflexivity]|].
+  destruct (Z.ltb_spec 0 a); [|lia].
+  destruct (verify_grow (sz s) (rel s) (mux_gsize s u) (gget s u g) x a) eqn:E.
+  - split; [discriminate|]. intros Hall. specialize (Hall g (or_introl eq_refl)). congruence.
+  - rewrite IH. split; [intros Hall g' [<-|Hg']; [exact E|apply Hall; exact Hg']|intros Hall g' Hg'; apply Hall; right; exact Hg'].
+Qed.
+
+(* verifySignalSizeAmount (of the message or of the multiplexer) says exactly [change_fits] *)
+Lemma sig_verify_fits : forall s p x a, link_ok s x -> 1 <= sz s x + a ->
+  (sig_verify_size (set_rel s p) x a = VOk <-> change_fits s p x a).
+Proof.
+  intros s p x a (Ltop & Lgrp & Lnd & Lfree & Lex) Hnew. unfold sig_verify_size, change_fits.
+  change (pmux (set_rel s p) x) with (pmux s x). change (pmsg (set_rel s p) x) with (pmsg s x).
+  destruct (pmux s x) as [u|] eqn:Epu.
+  - (* inside a multiplexer *)
+    assert (Hat : forall L, In x (lay s L) ->
+              exists g, L = LG u g /\ memb x (usigs s u) = true /\ exists gs, groups_of s u x = Some gs /\ In g gs).
+    { intros [m|u' g] HL; [destruct (Ltop m HL) as [C _]; congruence|]. destruct (Lgrp u' g HL) as (P & M & gs & Eg & Hg).
+      assert (u' = u) by congruence. subst u'. exists g. split; [reflexivity|split; [exact M|exists gs; split; assumption]]. }
+    unfold mux_verify_size. change (usigs (set_rel s p) u) with (usigs s u). change (groups_of (set_rel s p) u x) with (groups_of s u x).
+    destruct (Z.eqb_spec a 0) as [->|Ha]; [split; [intros _; left; lia|reflexivity]|].
+    destruct (memb x (usigs s u)) eqn:Em; cbn [negb].
+    2:{ exfalso. assert (NA : ~ attached s x) by (intros [L HL]; destruct (Hat L HL) as (g & _ & M & _); congruence).
+        destruct (Lfree NA) as [C _]. congruence. }
+    destruct (groups_of s u x) as [gs|] eqn:Eg.
+    2:{ exfalso. assert (NA : ~ attached s x) by (intros [L HL]; destruct (Hat L HL) as (g & _ & _ & gs & E & _); congruence).
+        destruct (Lfree NA) as [C _]. congruence. }
+    destruct (Z.ltb_spec 0 a) as [Hpos|Hneg].
+    + assert (Hvg : verify_groups (set_rel s p) u x a gs = None <-> forall L, In x (lay s L) -> a <= free_in s p L x).
+      { rewrite (verify_groups_all (set_rel s p) u x a gs Hpos).
+        change (sz (set_rel s p)) with (sz s). change (rel (set_rel s p)) with p.
+        change (mux_gsize (set_rel s p) u) with (mux_gsize s u). change (gget (set_rel s p) u) with (gget s u). split.
+        - intros Hall L HL. destruct (Hat L HL) as (g & -> & _ & gs' & Eg' & Hg). assert (gs' = gs) by congruence. subst gs'.
+          specialize (Hall g Hg). unfold free_in. cbn [lay lsz] in *.
+          destruct (followers (gget s u g) x) as [fs|] eqn:Hf; [|apply followers_None in Hf; contradiction].
+          apply (verify_grow_fits (sz s) p (mux_gsize s u) (gget s u g) x a fs ltac:(lia) Hf). exact Hall.
+        - intros Hall g Hg. pose proof (Lex u gs eq_refl Eg g Hg) as Hin. specialize (Hall (LG u g) Hin).
+          unfold free_in in Hall. cbn [lay lsz] in Hall.
+          destruct (followers (gget s u g) x) as [fs|] eqn:Hf; [|apply followers_None in Hf; contradiction].
+          apply (verify_grow_fits (sz s) p (mux_gsize s u) (gget s u g) x a fs ltac:(lia) Hf). exact Hall. }
+      destruct (verify_groups (set_rel s p) u x a gs) eqn:Ev.
+      * split; [discriminate|]. intros [C|C]; [lia|]. apply Hvg in C. discriminate.
+      * split; [intros _; right; apply Hvg; reflexivity|reflexivity].
+    + rewrite verify_groups_shrink by (try exact Hnew; lia). split; [intros _; left; lia|reflexivity].
+  - destruct (pmsg s x) as [m|] eqn:Epm.
+    + (* a top-level signal of message m *)
+      assert (Hat : forall L, In x (lay s L) -> L = LM m).
+      { intros [m'|u g] HL; [destruct (Ltop m' HL) as (_ & P & _); congruence|destruct (Lgrp u g HL) as (P & _); congruence]. }
+      assert (Hin : In x (glay s m)).
+      { destruct (in_dec Nat.eq_dec x (glay s m)) as [Hin|Hn]; [exact Hin|]. exfalso.
+        assert (NA : ~ attached s x) by (intros [L HL]; pose proof (Hat L HL); subst L; contradiction).
+        destruct (Lfree NA) as [_ C]. congruence. }
+      destruct (Ltop m Hin) as (_ & _ & M).
+      unfold msg_verify_size. change (gsigs (set_rel s p) m) with (gsigs s m). change (sz (set_rel s p)) with (sz s).
+      change (rel (set_rel s p)) with p. change (glsize (set_rel s p) m) with (glsize s m). change (glay (set_rel s p) m) with (glay s m).
+      destruct (Z.eqb_spec a 0) as [->|Ha]; [split; [intros _; left; lia|reflexivity]|].
+      rewrite M. cbn [negb].
+      destruct (followers (glay s m) x) as [fs|] eqn:Hf; [|apply followers_None in Hf; contradiction].
+      destruct (Z.ltb_spec 0 a) as [Hpos|Hneg].
+      * pose proof (verify_grow_fits (sz s) p (glsize s m) (glay s m) x a fs ltac:(lia) Hf) as V.
+        destruct (verify_grow (sz s) p (glsize s m) (glay s m) x a) eqn:Ev.
+        -- split; [discriminate|]. intros [C|C]; [lia|]. specialize (C (LM m) Hin). unfold free_in in C. cbn [lay lsz] in C.
+           rewrite Hf in C. apply V in C. discriminate.
+        -- split; [intros _; right|reflexivity]. intros L HL. rewrite (Hat L HL). unfold free_in. cbn [lay lsz]. rewrite Hf. apply V. reflexivity.
+      * rewrite verify_shrink_ok by lia. split; [intros _; left; lia|reflexivity].
+    + (* in no layout *)
+      split; [|reflexivity]. intros _. destruct (Z.le_gt_cases a 0) as [Hle|Hgt]; [left; exact Hle|right].
+      intros [m|u g] HL; exfalso; [destruct (Ltop m HL) as (_ & P & _); congruence|destruct (Lgrp u g HL) as (P & _); congruence].
+Qed.
+
+(* modifySignalSize succeeds exactly when the verification does *)
+Lemma msg_modify_ok_iff : forall s m x a, snd (msg_modify_size s m x a) = VOk <-> msg_verify_size s m x a = VOk.
+Proof.
+  intros s m x a. unfold msg_modify_size, msg_verify_size. destruct (a =? 0) eqn:E0; [cbn; tauto|].
+  destruct (negb (memb x (gsigs s m))); [cbn; tauto|]. destruct (0 <? a).
+  - unfold do_grow. rewrite E0. destruct (verify_grow (sz s) (rel s) (glsize s m) (glay s m) x a); [cbn; tauto|].
+    destruct (followers (glay s m) x); cbn; tauto.
+  - unfold do_shrink. assert (E1 : (- a =? 0) = false) by (apply Z.eqb_neq; apply Z.eqb_neq in E0; lia). rewrite E1.
+    destruct (verify_shrink (sz s) x (- a)); cbn; tauto.
+Qed.
+
+Lemma mux_modify_ok_of_verify : forall s x a p0 lenG u, InvA s -> ok_all s p0 lenG ->
+  lenG x = sz s x ->
+  (0 < a -> forall L, In x (lay s L) -> forall t, In t (lay s L) -> lenG t = sz s t) ->
+  1 <= sz s x + a -> single_moved s p0 x a ->
+  (forall gs, groups_of s u x = Some gs -> NoDup gs) ->
+  mux_verify_size (set_rel s p0) u x a = VOk -> snd (mux_modify_size (set_rel s p0) u x a) = VOk.
+Proof.
+  intros s x a p0 lenG u H Hcur HlenX Hagree Hnew Hsingle Hnd Hv. unfold mux_modify_size. rewrite Hv.
+  unfold mux_verify_size in Hv. change (usigs (set_rel s p0) u) with (usigs s u) in *.
+  change (groups_of (set_rel s p0) u x) with (groups_of s u x) in *.
+  destruct (Z.eqb_spec a 0) as [E0|Ha]; [reflexivity|].
+  destruct (negb (memb x (usigs s u))); [discriminate|].
+  destruct (groups_of s u x) as [gs|] eqn:Eg; [|discriminate].
+  destruct (verify_groups (set_rel s p0) u x a gs) eqn:Ev; [discriminate|].
+  rewrite modify_groups_pos. cbn [fst snd].
+  change (sz (set_rel s p0)) with (sz s). change (mux_gsize (set_rel s p0) u) with (mux_gsize s u).
+  change (gget (set_rel s p0) u) with (gget s u). change (rel (set_rel s p0)) with p0.
+  assert (Hshrink : a < 0 -> verify_shrink (sz s) x (- a) = None) by (intros Hneg; apply verify_shrink_ok; lia).
+  pose proof (mixed_loop s x a p0 lenG H HlenX Hagree Hnew u Ha Hsingle Hshrink gs p0 []
+                (mixed_init s x a p0 lenG Hcur u) (Hnd _ eq_refl) (fun g _ Hin => Hin)) as R.
+  destruct (mg_pos (sz s) (mux_gsize s u) (gget s u) x a gs p0) as [p' e]. cbn [snd].
+  destruct R as [_ [R2 R3]]. destruct e as [c|]; [exfalso|reflexivity].
+  destruct (R2 ltac:(discriminate)) as [Hpos _].
+  assert (E : Some c = None); [|discriminate]. apply (R3 Hpos).
+  apply (verify_groups_all (set_rel s p0) u x a gs Hpos). exact Ev.
+Qed.
+
+Lemma sig_modify_ok_iff : forall s x a p0 lenG, InvA s -> ok_all s p0 lenG ->
+  lenG x = sz s x ->
+  (0 < a -> forall L, In x (lay s L) -> forall t, In t (lay s L) -> lenG t = sz s t) ->
+  1 <= sz s x + a -> link_ok s x -> single_moved s p0 x a ->
+  (snd (sig_modify_size (set_rel s p0) x a) = VOk <-> sig_verify_size (set_rel s p0) x a = VOk).
+Proof.
+  intros s x a p0 lenG H Hcur HlenX Hagree Hnew (Ltop & Lgrp & Lnd & Lfree & Lex) Hsingle.
+  unfold sig_modify_size, sig_verify_size.
+  change (pmux (set_rel s p0) x) with (pmux s x). change (pmsg (set_rel s p0) x) with (pmsg s x).
+  destruct (pmux s x) as [u|] eqn:Epu.
+  - split.
+    + intros Hm. unfold mux_modify_size in Hm. unfold mux_verify_size in *.
+      destruct (a =? 0); [reflexivity|]. destruct (negb (memb x (usigs (set_rel s p0) u))); [discriminate|].
+      destruct (groups_of (set_rel s p0) u x); [|discriminate].
+      destruct (verify_groups (set_rel s p0) u x a l); [discriminate|reflexivity].
+    + apply (mux_modify_ok_of_verify s x a p0 lenG u H Hcur HlenX Hagree Hnew Hsingle). intros gs Eg. eapply Lnd; eauto.
+  - destruct (pmsg s x) as [m|]; [apply msg_modify_ok_iff|cbn; tauto].
+Qed.
+
 (* --- enum size changes: all referencing signals at once --------------------------------------- *)
 
 Definition bump (s : state) (D : list nat) (n' : Z) : nat -> Z := fun y => if memb y D then n' else sz s y.
@@ -1863,11 +2030,12 @@ Lemma refs_loop : forall s a old n', InvA s -> a <> 0 -> n' = old + a -> 1 <= n'
     /\ (snd (refs_modify (set_rel s p) R a) = VOk -> ok_all s p' (bump s (D ++ R) n'))
     /\ (snd (refs_modify (set_rel s p) R a) <> VOk ->
         0 < a /\ exists D', (forall y, In y D' -> In y (D ++ R)) /\ ok_all s p' (bump s D' n'))
-    /\ moved_with s p' (D ++ R).
+    /\ moved_with s p' (D ++ R)
+    /\ (snd (refs_modify (set_rel s p) R a) = VOk <-> forall r, In r R -> change_fits s (rel s) r a).
 Proof.
   intros s a old n' H Ha En Hn'. induction R as [|r R' IH]; intros D p Hsz Hcur Hnd Hun Hres Hmw.
   - cbn [refs_modify fst snd]. exists p. split; [reflexivity|]. split; [intros _; rewrite app_nil_r; exact Hcur|].
-    split; [intros C; congruence|rewrite app_nil_r; exact Hmw].
+    split; [intros C; congruence|]. split; [rewrite app_nil_r; exact Hmw|]. split; [intros _ r []|reflexivity].
   - cbn [refs_modify].
     assert (Hr : sz s r = old) by (apply Hsz; apply in_or_app; right; left; reflexivity).
     assert (HrD : ~ In r D).
@@ -1879,21 +2047,27 @@ Proof.
       assert (t = r).
       { apply (Hun Hpos L t r); [apply in_or_app; left; exact Em|apply in_or_app; right; left; reflexivity|exact Ht|exact HL]. }
       subst t. contradiction. }
+    (* growth: the layouts holding r still have the positions of the state *)
+    assert (Hsame : 0 < a -> forall L t, In r (lay s L) -> In t (lay s L) -> p t = rel s t).
+    { intros Hpos L t HL Ht. destruct (Z.eq_dec (p t) (rel s t)) as [E|NE]; [exact E|]. exfalso.
+      destruct (Hmw t NE) as (d & L' & Hd & HdL & HtL & Hex). pose proof (Hex L Ht) as EL. subst L'.
+      assert (d = r).
+      { apply (Hun Hpos L d r); [apply in_or_app; left; exact Hd|apply in_or_app; right; left; reflexivity|exact HdL|exact HL]. }
+      subst d. contradiction. }
     destruct (Hres r (or_introl eq_refl)) as [Hlink Hsm].
     assert (Hsm' : single_moved s p r a).
     { destruct (Z.ltb_spec 0 a) as [Hpos|Hneg].
-      - (* growth: the layouts holding r still have the positions of the state *)
-        eapply single_moved_ext; [|exact Hsm]. intros L t HL Ht.
-        destruct (Z.eq_dec (p t) (rel s t)) as [E|NE]; [exact E|]. exfalso.
-        destruct (Hmw t NE) as (d & L' & Hd & HdL & HtL & Hex). pose proof (Hex L Ht) as EL. subst L'.
-        assert (d = r).
-        { apply (Hun Hpos L d r); [apply in_or_app; left; exact Hd|apply in_or_app; right; left; reflexivity|exact HdL|exact HL]. }
-        subst d. contradiction.
+      - eapply single_moved_ext; [|exact Hsm]. intros L t HL Ht. apply (Hsame Hpos L t HL Ht).
       - (* shrinking pulls every follower, wherever it is *)
         intros u g y Hy. apply (Hsm u g y). unfold moved_in in *. destruct (a =? 0); [exact Hy|].
         destruct (followers (gget s u g) r); [|exact Hy]. destruct (Z.ltb_spec 0 a); [lia|exact Hy]. }
-    destruct (sig_modify_post s r a p (bump s D n') H Hcur HlenR Hagree ltac:(lia) Hlink Hsm') as [A B].
-    destruct (sig_modify_size (set_rel s p) r a) as [s1 e]. cbn [fst snd] in A, B.
+    assert (Hnew : 1 <= sz s r + a) by lia.
+    (* accepted exactly when the change fits (in the state before the enum edit) *)
+    assert (Hacc : snd (sig_modify_size (set_rel s p) r a) = VOk <-> change_fits s (rel s) r a).
+    { rewrite (sig_modify_ok_iff s r a p (bump s D n') H Hcur HlenR Hagree Hnew Hlink Hsm').
+      rewrite (sig_verify_fits s p r a Hlink Hnew). apply change_fits_ext. exact Hsame. }
+    destruct (sig_modify_post s r a p (bump s D n') H Hcur HlenR Hagree Hnew Hlink Hsm') as [A B].
+    destruct (sig_modify_size (set_rel s p) r a) as [s1 e]. cbn [fst snd] in A, B, Hacc.
     destruct A as [p1 [-> [Aok [Aerr Amv]]]].
     assert (Hmw1 : moved_with s p1 (D ++ [r])).
     { intros y Hy. destruct (Z.eq_dec (p1 y) (p y)) as [E|NE].
@@ -1904,6 +2078,8 @@ Proof.
     assert (Hmw1' : moved_with s p1 (D ++ r :: R')).
     { intros y Hy. destruct (Hmw1 y Hy) as (d & L & Hd & Rest). exists d, L. split; [|exact Rest].
       apply in_app_or in Hd. apply in_or_app. destruct Hd as [Hd|[<-|[]]]; [left; exact Hd|right; left; reflexivity]. }
+    assert (Hnofit : e <> VOk -> ~ (forall r0, In r0 (r :: R') -> change_fits s (rel s) r0 a)).
+    { intros Ne Hall. apply Ne. apply Hacc. apply Hall. left; reflexivity. }
     destruct e.
     + specialize (Aok eq_refl).
       assert (Hcur' : ok_all s p1 (bump s (D ++ [r]) n')).
@@ -1912,21 +2088,22 @@ Proof.
         destruct (Nat.eqb_spec y r) as [->|NE].
         - rewrite orb_true_r. lia.
         - rewrite !orb_false_r. reflexivity. }
-      destruct (IH (D ++ [r]) p1) as [p' [E1 [E2 [E3 E4]]]].
+      destruct (IH (D ++ [r]) p1) as [p' [E1 [E2 [E3 [E4 E5]]]]].
       * intros y Hy. apply Hsz. rewrite <- app_assoc in Hy. exact Hy.
       * exact Hcur'.
       * rewrite <- app_assoc. exact Hnd.
-      * rewrite <- app_assoc. exact Hun.
+      * intros Hpos. rewrite <- app_assoc. exact (Hun Hpos).
       * intros x Hx. apply Hres. right; exact Hx.
       * exact Hmw1.
       * exists p'. split; [exact E1|]. split; [intros E; rewrite <- app_assoc in E2; apply E2; exact E|].
-        split; [|rewrite <- app_assoc in E4; exact E4].
-        intros C. destruct (E3 C) as [Hpos [D' [Hin HD']]]. split; [exact Hpos|]. exists D'. split; [|exact HD'].
-        intros y Hy. specialize (Hin y Hy). rewrite <- app_assoc in Hin. exact Hin.
-    + exists p1. split; [reflexivity|]. split; [discriminate|]. split; [|exact Hmw1']. intros _.
+        split; [|split; [rewrite <- app_assoc in E4; exact E4|]].
+        -- intros C. destruct (E3 C) as [Hpos [D' [Hin HD']]]. split; [exact Hpos|]. exists D'. split; [|exact HD'].
+           intros y Hy. specialize (Hin y Hy). rewrite <- app_assoc in Hin. exact Hin.
+        -- rewrite E5. split; [intros Hall r0 [<-|Hr0]; [apply Hacc; reflexivity|apply Hall; exact Hr0]|intros Hall r0 Hr0; apply Hall; right; exact Hr0].
+    + exists p1. split; [reflexivity|]. split; [discriminate|]. split; [|split; [exact Hmw1'|split; [discriminate|intros Hall; exfalso; apply (Hnofit ltac:(discriminate) Hall)]]]. intros _.
       split; [|exists D; split; [intros y Hy; apply in_or_app; left; exact Hy|apply Aerr; discriminate]].
       destruct (Z.lt_trichotomy a 0) as [Hneg|[E0|Hpos]]; [specialize (B Hneg); discriminate|congruence|exact Hpos].
-    + exists p1. split; [reflexivity|]. split; [discriminate|]. split; [|exact Hmw1']. intros _.
+    + exists p1. split; [reflexivity|]. split; [discriminate|]. split; [|split; [exact Hmw1'|split; [discriminate|intros Hall; exfalso; apply (Hnofit ltac:(discriminate) Hall)]]]. intros _.
       split; [|exists D; split; [intros y Hy; apply in_or_app; left; exact Hy|apply Aerr; discriminate]].
       destruct (Z.lt_trichotomy a 0) as [Hneg|[E0|Hpos]]; [specialize (B Hneg); discriminate|congruence|exact Hpos].
 Qed.
@@ -1943,23 +2120,25 @@ Lemma enum_modify_post : forall s e a, InvA s -> 1 <= esize s e + a -> enum_resi
   exists p, fst (enum_modify_size s e a) = set_rel s p
     /\ (snd (enum_modify_size s e a) = VOk -> ok_all s p (bump s (erefs s e) (esize s e + a)))
     /\ (snd (enum_modify_size s e a) <> VOk -> ok_all s p (sz s))
-    /\ moved_with s p (erefs s e).
+    /\ moved_with s p (erefs s e)
+    /\ (snd (enum_modify_size s e a) = VOk <-> forall r, In r (erefs s e) -> change_fits s (rel s) r a).
 Proof.
   intros s e a H Hnew [Hres Hun]. unfold enum_modify_size.
   assert (Hszr : forall y, In y (erefs s e) -> sz s y = esize s e).
   { intros y Hy. destruct (a_refs2 s H y e Hy) as [K _]. unfold sz. rewrite K. reflexivity. }
   destruct (Z.eqb_spec a 0) as [->|Ha].
-  - cbn [fst snd]. exists (rel s). split; [apply set_rel_id|]. split; [|split; [intros _; exact (a_ok s H)|intros y C; congruence]].
-    intros _. eapply ok_all_ext; [|exact (a_ok s H)]. intros y. unfold bump.
-    destruct (memb y (erefs s e)) eqn:E; [apply memb_In in E; rewrite (Hszr y E); lia|reflexivity].
-  - destruct (refs_loop s a (esize s e) (esize s e + a) H Ha eq_refl Hnew (erefs s e) [] (rel s)) as [p' [E1 [E2 [E3 E4]]]].
+  - cbn [fst snd]. exists (rel s). split; [apply set_rel_id|]. split; [|split; [intros _; exact (a_ok s H)|split; [intros y C; congruence|]]].
+    + intros _. eapply ok_all_ext; [|exact (a_ok s H)]. intros y. unfold bump.
+      destruct (memb y (erefs s e)) eqn:E; [apply memb_In in E; rewrite (Hszr y E); lia|reflexivity].
+    + split; [intros _ r _; left; lia|reflexivity].
+  - destruct (refs_loop s a (esize s e) (esize s e + a) H Ha eq_refl Hnew (erefs s e) [] (rel s)) as [p' [E1 [E2 [E3 [E4 E5]]]]].
     + intros y Hy. apply Hszr. exact Hy.
     + eapply ok_all_ext; [|exact (a_ok s H)]. intros y. reflexivity.
     + apply (a_refs_nd s H).
     + exact Hun.
     + exact Hres.
     + intros y C. congruence.
-    + rewrite <- (set_rel_id s) in *. exists p'. split; [exact E1|]. split; [exact E2|]. split; [|exact E4].
+    + rewrite <- (set_rel_id s) in *. exists p'. split; [exact E1|]. split; [exact E2|]. split; [|split; [exact E4|exact E5]].
       intros C. destruct (E3 C) as [Hpos [D' [Hin HD']]].
       eapply bump_old; [exact H| |exact HD']. intros y Hy. rewrite (Hszr y (Hin y Hy)). lia.
 Qed.
